@@ -127,6 +127,87 @@ def r9(report, db, P, cg, classes):
             else:
                 continue
             break
+    # the reader's side of the same mistake: what follows on the wire is
+    # decided by the truth of a number / string just decoded
+    Rr = report.rule('R05.9r', 'hand-written readers decide what else to '
+                     'read by flags and `is None`, never by the truth of a '
+                     'decoded number or string (0 and "" are values the '
+                     'writer sends like any other)')
+    readers = []
+    for cv in sorted(classes, key=lambda c: c.ci.fq):
+        rd, _ = P.custom_codec(cv.ci)
+        if rd is not None and rd not in readers:
+            readers.append(rd)
+    for fi in db.funcs:
+        if fi.name in ('read', 'read_with_context') and fi.cls is not None \
+                and db.is_subclass(fi.cls, P.type_ci) and \
+                fi not in readers and \
+                fi.module.name.startswith('minecraft.networking.packets'):
+            readers.append(fi)
+    nr = 0
+
+    def is_read(t):
+        return t[0] == 'call' and (
+            (t[1][0] == 'attr' and t[1][2] in ('read', 'read_with_context'))
+            or (t[1][0] == 'fn' and t[1][1].name in ('read',
+                                                     'read_with_context')))
+
+    def reads_of(p):
+        return tuple(show(e.fn)[:60] for e in p.flat(('call',))
+                     if e.method() in ('read', 'read_with_context'))
+    for rd in readers:
+        try:
+            paths = S.run(rd)
+        except AnalysisError:
+            continue
+        nr += 1
+        by = {}
+        for p in paths:
+            if p.raises:
+                continue
+            for a, pol, _ in p.conds:
+                if a[1] == 'truth' and is_read(a[2][0]) and \
+                        'Boolean' not in show(a[2][0][1]):
+                    by.setdefault(_st(a[2][0]), {}).setdefault(
+                        pol, set()).add(reads_of(p))
+        # a zero that both sides treat as "nothing follows" is the
+        # protocol's own sentinel (map columns): the writer sends the value
+        # with the same codec and decides by its truth too
+        sentinels = set()
+        wr = None
+        if rd.cls is not None:
+            wr = P.custom_codec(rd.cls)[1] if rd.name == 'read' and \
+                db.is_subclass(rd.cls, P.packet_ci) else db.find_method(
+                    rd.cls, rd.name.replace('read', 'send'))
+        if wr is not None:
+            try:
+                wpaths = S.run(wr)
+            except AnalysisError:
+                wpaths = []
+            for p in wpaths:
+                sent = {}
+                for e in p.flat(('call',)):
+                    if e.method() in ('send', 'send_with_context') and \
+                            e.args:
+                        sent[_st(e.args[0])] = show(e.fn).split('.')[0]
+                for a, pol, _ in p.conds:
+                    if a[1] == 'truth' and _st(a[2][0]) in sent:
+                        sentinels.add(sent[_st(a[2][0])])
+        for k, sides in by.items():
+            if show(k).split('.')[0] in sentinels:
+                continue
+            if len(sides) == 2 and sides[True] != sides[False]:
+                report.violation(
+                    Rr, 'read-by-truth:%s:%s' % (rd.qualname, show(k)[:40]),
+                    rd.path, rd.node, rd.qualname,
+                    'what is read next depends on the truth of %s: when the '
+                    'value on the wire is 0 (or empty) the reader takes the '
+                    'branch meant for an absent value and reads fields the '
+                    'writer never wrote' % show(k)[:60])
+                break
+        else:
+            report.ok(Rr, rd.qualname)
+    report.floor('hand-written readers summarised', nr, 10)
     # every codec call of a hand-written reader / writer is made on the
     # function's own stream (value and stream not swapped, no other stream)
     Rs = report.rule('R05.9s', 'hand-written readers / writers hand their '
